@@ -148,7 +148,7 @@ def ord_hash_dbg(ctx, prog, cfg):
 
 
 def base1(ctx, prog, cfg):
-    for short, first_guard in ((BASE_SLICE, r"guard Ne\(\(\*self\)\.size, <\[T\]>::len\(other\)\)"), (BASE_BUF, r"guard Ne\(\(\*self\)\.size, \(\*other\)\.size\)")):
+    for short, first_guard in ((BASE_SLICE, r"guard Ne\((\(\*self\)\.size, <\[T\]>::len\(other\)|<\[T\]>::len\(other\), \(\*self\)\.size)\)"), (BASE_BUF, r"guard Ne\(\(\*other\)\.size, \(\*self\)\.size\)")):
         f = ctx.need_fn(prog, short, "BASE1")
         if f is None:
             continue
